@@ -66,14 +66,14 @@ Definition ez_a1 (o : aop1) (x : extz) : extz :=
   | Abs => ez_abs x
   | Neg => ez_neg x
   | Sqrt => match x with Fin a => Fin (Z.sqrt a) | PosInf => PosInf | NegInf => Fin 0 end
-  | Exp => match x with Fin _ => Fin 1 | PosInf => PosInf | NegInf => Fin 0 end
+  | Exp => match x with Fin a => if 710 <=? a then PosInf else if a <=? -746 then Fin 0 else Fin 1 | PosInf => PosInf | NegInf => Fin 0 end
   | Ln => match x with Fin _ => Fin 0 | PosInf => PosInf | NegInf => Fin 0 end
   end.
 Definition ez_ok1 (o : aop1) (x : extz) : bool :=
   match o with
   | Abs | Neg => true
   | Sqrt => match x with Fin a => (0 <=? a) && (Z.sqrt a * Z.sqrt a =? a) | PosInf => true | NegInf => false end
-  | Exp => match x with Fin a => a =? 0 | _ => true end
+  | Exp => match x with Fin a => (a =? 0) || (710 <=? a) || (a <=? -746) | _ => true end   (* float exp: 1 at 0, +inf from 710 on (saturating), 0.0 below -745.2 *)
   | Ln => match x with Fin a => a =? 1 | PosInf => true | NegInf => false end
   end.
 
